@@ -59,9 +59,30 @@ def inputs(tier):
                     (('HIS', 'GLU', 'GLU'), 'line'), (('LYS', 'ASP', 'TYR'), 'star')):
         for how in ('mutant-first', 'mutant-second', 'displaced'):
             out.append(dict(src='models', d=corpus.cluster_desc(ks, lay, 3.0, 'deep'), how=how))
+    # two residues of one type that differ only in their insertion code (same chain, same number) around a common partner
+    for ks, lay in ((('LYS', 'ASP', 'ASP'), 'star'), (('ARG', 'GLU', 'GLU'), 'star'), (('ASP', 'LYS', 'LYS'), 'star'), (('HIS', 'GLU', 'GLU'), 'star'),
+                    (('TYR', 'ARG', 'ARG'), 'star'), (('LYS', 'ASP', 'ASP'), 'line')):
+        for lv in ('mid', 'deep'):
+            out.append(dict(src='twins', d=corpus.cluster_desc(ks, lay, 3.0, lv)))
     if tier == 'thorough':
         out += [dict(src='corpus', d=corpus.file_desc(k)) for k in gen.PROTEINS]
     return out
+
+
+def build_twins(case, seed):
+    """The cluster with its third part relabelled as the insertion-code twin of the second (chain, numbers of the second part + 'A')."""
+    s = corpus.build(case['d'], seed)
+    chains = []
+    for a in s.atoms:
+        if a.chain not in chains:
+            chains.append(a.chain)
+    second, third = chains[1], chains[2]
+    lo2 = min(a.resnum for a in s.atoms if a.chain == second)
+    lo3 = min(a.resnum for a in s.atoms if a.chain == third)
+    for a in s.atoms:
+        if a.chain == third:
+            a.chain, a.resnum, a.icode = second, a.resnum - lo3 + lo2, 'A'
+    return s
 
 
 def build_models(case, seed):
@@ -215,7 +236,7 @@ def cfg_path(name):
 
 
 def run_case(case, ctx, acc):
-    s = build_models(case, ctx.seed) if case['src'] == 'models' else corpus.build(case['d'], ctx.seed)
+    s = build_models(case, ctx.seed) if case['src'] == 'models' else build_twins(case, ctx.seed) if case['src'] == 'twins' else corpus.build(case['d'], ctx.seed)
     text = gen.to_text(s)
     opts = ()
     if case.get('cfg'):
